@@ -42,6 +42,19 @@ Proof. exact prov_register_accepted. Qed.
 Theorem C08_provider_second_registration_rejected : forall s from n i w d p,
   get_provider s (ta_bytes from) = Some p -> h_prov_register s from n i w d = Err.
 Proof. exact prov_register_twice. Qed.
+(* ... and conversely: an account that is not registered yet and can pay the registration deposit IS
+   registered (the deposit goes to the community pool) *)
+Theorem C08_provider_registration_accepted : forall s from n i w d,
+  get_provider s (ta_bytes from) = None ->
+  0 <= (p_prov_deposit (pars s)).2 <= bal s (ta_bytes from) (p_prov_deposit (pars s)).1 ->
+  exists s', h_prov_register s from n i w d = Ok s'.
+Proof. exact prov_register_complete. Qed.
+Theorem C08_node_registration_accepted : forall s from gb hr url,
+  valid_gb_prices s (coins_of gb) = true -> valid_hr_prices s (coins_of hr) = true ->
+  get_node s (ta_bytes from) = None ->
+  0 <= (p_node_deposit (pars s)).2 <= bal s (ta_bytes from) (p_node_deposit (pars s)).1 ->
+  exists s', h_node_register s from gb hr url = Ok s'.
+Proof. exact node_register_complete. Qed.
 Theorem C08_node_registers_once : forall s from gb hr url s',
   h_node_register s from gb hr url = Ok s' -> get_node s (ta_bytes from) = None.
 Proof. exact node_register_accepted. Qed.
@@ -113,3 +126,5 @@ Print Assumptions C08_one_active_invariant.
 Print Assumptions C08_gigabyte_purchase_accepted.
 Print Assumptions C08_hourly_purchase_accepted.
 Print Assumptions C08_plan_purchase_accepted.
+Print Assumptions C08_provider_registration_accepted.
+Print Assumptions C08_node_registration_accepted.
